@@ -9,7 +9,8 @@ CLAIMED = {
     'C01': dict(ref='§4 C01', text='Lean theorem C01_total_wellformed over the dispatcher model: for every configuration with id-preserving middlewares, every load result '
                 'other than RecursionError and every context, dispatch returns nothing or a reply whose document satisfies the declarative JSON-RPC 2.0 response predicate '
                 '(object or NON-EMPTY array) with codes = docCodes(doc); never raises. Tied to both real dispatchers by the dispatch correspondence suite '
-                '(product alphabets of request members, batches, malformed texts, digit-limit literals, nesting to 64).',
+                '(product alphabets of request members, batches, malformed texts, digit-limit literals, nesting to 64; dispatchers with the user\'s own JSON loader / dumper / encoder / decoder) '
+                'and, for methods behind the schema / type validators, by the validators suite (whatever the validator makes of a call, dispatch answers and never raises).',
                 note='Kernel + standard axioms; hand-written model of dispatcher.py/v20.py tied by correspondence; json.loads classification (decode error / other ValueError / value) '
                 'is an input of the model; methods return JSON values; RecursionError (nesting far beyond 64) excluded by hypothesis.'),
     'C02': dict(ref='§4 C02', text='Lean theorems: call answered once with the identical id (ReqId keeps JSON type), notification silent on every path, '
@@ -86,7 +87,7 @@ CLAIMED = {
                 'C16_complete (exactly one entry per (endpoint, method) under join_path(path, endpoint)#name, each a function of its own method alone: no cross-method leak), C16_closed (every $ref resolves if each extractor returns the components it references), '
                 'OpenRPC complete + pure; the pinned in-place extension is refuted (C16_shared_list_counterexample). Tied by generating real OpenAPI 3.0 / 3.1 and OpenRPC documents for random method sets x annotation combinations '
                 '(errors lists shared between methods, tags, examples, prefixes, servers, security) x extractor stacks x endpoint prefixes x 1..3 generations, abstracted to path keys / error codes / tags / $ref targets / component keys; '
-                'per-method model inputs come from generating each method alone. Oracle: JSON-encodability, the official meta-schemas shipped with the repo, dangling-$ref scan, repetition, before / after snapshots, content digests per entry.',
+                'per-method model inputs come from generating each method alone. Oracle: JSON-encodability, the official meta-schemas shipped with the repo, dangling-$ref scan, repetition, before / after snapshots, content digests per entry. utils.join_path / remove_prefix / remove_suffix are model functions with an exact correspondence (1.7k string cases) and theorems: the path keys are distinct whenever the (URL path, exposed name) pairs are and paths contain no # (C16_complete_distinct_paths / C16_complete_user_paths, the premise of C16_complete derived rather than assumed), removePrefix_append, removeSuffix_append. Two generations on one spec object that overlap in time are exercised through a gate in every extractor call.',
                 note='Kernel + standard axioms; meta-schema validity and the content of pydantic-generated schemas are checked by the oracle only; OAS 3.0 dialect, untyped docstrings and same-named methods on different endpoints (D22) are recorded findings.'),
     'C17': dict(ref='§4 C17', text='Lean theorems: C17_names_agree (documented names = names the binder keeps, required = those without default), C17_accept_iff (a named params object with key set K binds iff required ⊆ K ⊆ documented, '
                 'from the closed form of Signature.bind), C17_excluded_absent; C17_view_counterexample refutes the statement for class-based views (D16, recorded). Tied by reading the parameter schema out of real OpenAPI and OpenRPC documents '
